@@ -1747,6 +1747,11 @@ class ForAll(QuantifiedConditional):
                 solution_set = []
                 break
 
+        if solution_set is None:
+            # the universal variable has no values: the condition holds vacuously
+            yield OperationResult(sources, False, self)
+            return
+
         # Yield the remaining bindings (non-universal) merged with the incoming sources
         yield from [
             OperationResult({**sources, **sol}, False, self) for sol in solution_set
